@@ -250,6 +250,27 @@ def check_program(m, mod, res, case_base, truth):
         for key in ("#value", "#error", "#yield", "#receive"):
             res.count("events_" + key[1:], nm.count(key))
         res.count("loop_iterations", sum(1 for n in nm if n.startswith("#loop_")))
+        # (4) each meta-event must not depend on which other events are selected: probes made of a
+        # small subset of the selectors deliver exactly the projection of the full stream
+        allsel = list(streams.METAS) + [f"#loop_{v}" for v in m["loopvars"]] + [f"#endloop_{v}" for v in m["loopvars"]] + list(names)
+        srnd = rng_for("C06sub", case_base["seed"], case_base["idx"] * 7 + argi)
+        present = sorted({n for n, _ in got if n.startswith("#")})
+        for k in range(3):
+            if k == 0 and present:
+                subset = [srnd.choice(present)]
+            else:
+                subset = srnd.sample(allsel, min(len(allsel), srnd.randint(1, 3)))
+            res.deciding += 1
+            try:
+                sgot, sout = streams.observe_only(mod, m, argi, subset)
+            except Exception as e:
+                res.violation(dict(case, subset=subset), {"what": "exception while probing a subset of the events", "subset": subset, "error": common.fmt_exc(e)[-1200:]})
+                continue
+            sexp = [(n, v) for n, v in got if n in subset]
+            if streams.sort_runs(sexp, params) != streams.sort_runs(sgot, params):
+                res.violation(dict(case, subset=subset), {"what": "a probe on a subset of the events does not deliver the projection of the full stream", "subset": subset, **streams.first_diff(streams.sort_runs(sexp, params), streams.sort_runs(sgot, params))})
+            res.count("subset_probes")
+            res.count("subset_probe_events", len(sexp))
         # wrapper probe
         res.deciding += 1
         wout = []
